@@ -12,8 +12,8 @@ Per-run obligations on the REAL esutil.wcsutil.WCS (scratch build of the tree un
     on the implementation's own image2sky values.
   * exact-rational checks (differential runner, Exec.v verdicts, vm_compute over Q): longitude in
     [0,360), latitude in [-90,90]; sky2image(image2sky(p)) within 1e-6 px of p with root finding
-    (and without it on undistorted chains), within 30 x (rms residual of the code's own inverse
-    fit) + 1e-6 px without root finding; scalar calls = array calls (1e-9 degree on the sky, 1e-6 px,
+    (and without it on undistorted chains), within 30 x (rms over the image of fitted-inverse o forward distortion - identity,
+    evaluated by the harness from the coefficients the object holds) + 1e-6 px without root finding; scalar calls = array calls (1e-9 degree on the sky, 1e-6 px,
     3.6e-6 arcsec/px for the jacobian: numpy's array and scalar power differ in the last bits); every operation
     of a random call history returns bit for bit what a fresh object returns; numpy.linalg.inv
     contract (cdinv . cd = 1 to 1e-9).
@@ -225,7 +225,10 @@ class RoundTrip(Base):
             pairs.append([x, y, float(xb), float(yb)])
         rms = None
         if mode == "fit" and has_dist(h):
-            rms = float(mk(h).InvertDistortion())     # the code's own measure of its inverse fit
+            # yardstick: how well the fitted inverse polynomial the object now holds inverts the convention's
+            # forward distortion on a grid over the image (computed here, not by the code's inverse chain)
+            d = w.distort
+            rms = g.fit_rms(h, d["name"], [list(map(float, r)) for r in d["ap"]], [list(map(float, r)) for r in d["bp"]])
         return {"pairs": pairs, "rms": rms}
 
     def term(self, c, out):
@@ -431,6 +434,8 @@ def certify(ctx, items, tag):
             else:
                 what = "image2sky(distort=%s) is not within 1e-9 degree of the FITS reference computation" % it["distort"]
                 cls = "forward"
+            if it.get("witness"):
+                what = "regression of the repaired defect corpus/C10/%s.json (%s): %s" % (it["witness"], it.get("defect", ""), what)
             ctx.violation(what + (" [negation proved by interval]" if refuted else " [certificate not provable]"),
                           {"kind": "certificate", "entry": "cert", "case": it, "negation_proved": bool(refuted),
                            "class": None, "certificate_class": cls,
@@ -487,6 +492,9 @@ def jac_items(ctx, n):
     items = []
     for h, fam in header_plan(ctx, n, "jac"):
         pt = g.gen_points(ctx.rng, h, 1, special=False)[0]
+        if fam.split("/")[1].startswith("seam") and g.in_image(h, h["crpix1"], h["crpix2"]):
+            # on the RA = 0 seam: the +-step positions straddle it and wrap_ra_diff is exercised
+            pt = [h["crpix1"] + ctx.rng.uniform(-0.4, 0.4), h["crpix2"] + ctx.rng.uniform(-0.4, 0.4)]
         step = ctx.rng.choice([1.0, 1.0, 0.5, 2.0])
         try:
             it = jac_item(h, pt, ctx.rng.random() < 0.7, step, fam)
@@ -499,6 +507,62 @@ def jac_items(ctx, n):
         else:
             ctx.violation("get_jacobian returns a non-finite value",
                           {"kind": "failing-input", "entry": "jac", "case": it, "class": None})
+    return items
+
+
+def witness_cases(stem=None):
+    """corpus/C10/<defect>.json: cases with entry "witness:<entry>" (run first, reported per defect)"""
+    d = os.path.join(core.VERIF, "corpus", "C10")
+    out = []
+    if os.path.isdir(d):
+        for f in sorted(os.listdir(d)):
+            if f.endswith(".json") and (stem is None or f == stem + ".json"):
+                for c in json.load(open(os.path.join(d, f))):
+                    if str(c.get("entry", "")).startswith("witness:"):
+                        c = dict(c)
+                        c["witness"] = f[:-5]
+                        c.setdefault("family", "corpus/" + f[:-5])
+                        out.append(c)
+    return out
+
+
+def witness_pass(ctx, entries, cases):
+    """the witnesses of the repaired defects: every case is evaluated like a case of its entry; a failing one is
+    reported under the name of its defect.  Returns the certificate items of the forward witnesses."""
+    byname = {e.name: e for e in entries}
+    fw = Forward()                      # private instance: collects the outputs to certify
+    byname["forward"] = fw
+    terms, meta = [], []
+    for c in cases:
+        ent = byname[c["entry"].split(":", 1)[1]]
+        out = ent.impl(c)
+        terms.append(ent.term(c, out))
+        meta.append((ent, c, out))
+    if not terms:
+        return []
+    try:
+        vals = core.coq_eval(os.path.join(ctx.work, "witness"), PRE_Q, terms, tag="witness")
+    except core.CoqEvalError as e:
+        ctx.violation("case file of the corpus witnesses does not evaluate in Coq",
+                      {"kind": "case-file", "entry": "witness", "error": str(e)[-3000:]}, found_input=False)
+        return []
+    for (ent, c, out), v in zip(meta, vals):
+        v = int(v.replace("%Z", "").strip("() "))
+        ctx.case([c["entry"], c], "err" not in out, "corpus:" + c["witness"],
+                 sample={"entry": c["entry"], "input": c, "impl_output": out})
+        ctx.count("verdict:witness:%s:%d" % (c["witness"], v))
+        if v >= 2:
+            detail = out.get("msg") if "err" in out else core.VERDICT_TXT[v]
+            ctx.violation("regression of the repaired defect corpus/C10/%s.json (%s): %s: %s" % (
+                c["witness"], c.get("defect", ""), ent.name, detail),
+                {"kind": "failing-input", "entry": c["entry"], "case": c, "impl_output": out, "verdict": v, "class": None},
+                found_input=True)
+    items = []
+    for c, out in fw.results:
+        for it in cert_items_from(c, out):
+            it["witness"] = c["witness"]
+            it["defect"] = c.get("defect", "")
+            items.append(it)
     return items
 
 
@@ -521,7 +585,7 @@ TRUSTED = [
     "reference direction of its exact binary64 inputs (partial w.r.t. rounding, DESIGN 3.3-R)",
     "NOT modelled: scipy.optimize.fsolve and the least-squares inverse fit (Section variables of the model; history "
     "independence is proved for arbitrary functions in their place); their accuracy is checked on samples only: round trip "
-    "< 1e-6 px with root finding, <= 30 x rms(the code's own fit residual) + 1e-6 px without; numpy.linalg.inv is modelled as "
+    "< 1e-6 px with root finding, <= 30 x rms(fitted inverse polynomial o forward distortion - identity over the image, evaluated by the harness) + 1e-6 px without; numpy.linalg.inv is modelled as "
     "the exact inverse and monitored (|cdinv.cd - 1| <= 1e-9)",
     "numpy array layer (broadcasting, masks, in-place ufuncs) is not modelled; checked per run on exact values: scalar calls "
     "= array calls to the statement's accuracies; history independence checked bit for bit against fresh objects",
@@ -577,14 +641,21 @@ def run(ctx, replay=None):
             return
         certify(ctx, [it], "replay")
         return
-    # 4. exact-rational checks
+    # 4. witnesses of the repaired defects (corpus), reported per defect
+    if replay is not None and str(replay.get("entry", "")).startswith("witness:"):
+        c = dict(replay["case"])
+        c.setdefault("witness", "replay")
+        certify(ctx, witness_pass(ctx, entries, [c]), "replay")
+        return
+    witems = witness_pass(ctx, entries, witness_cases()) if replay is None else []
+    # 5. exact-rational checks
     differential(ctx, PRE_Q, entries, replay)
     if replay is not None:
         return
     ctx.count("observed:scalar_array-bit-identical", sa.identical)
-    # 5. certificates
+    # 6. certificates
     t0 = time.time()
-    items = cert_pool(fw, ctx, ctx.n(48, 560), ctx.n(6, 60))
+    items = witems + cert_pool(fw, ctx, ctx.n(48, 560), ctx.n(6, 60))
     items += jac_items(ctx, ctx.n(6, 60))
     certify(ctx, items, "cert")
     ctx.count("wall_s:certificates", round(time.time() - t0, 1))
